@@ -76,7 +76,7 @@ def pots_check(prop, tier, seed, work, replay):
     pfile = os.path.join(d, "pots.ndjson")
     e = T["enum"]
     pst = vlib.drive(binary, ["pots-enum", "-n", e["n"], "-cmax", e["cmax"], "-smax", e["smax"], "-random", e["random"], "-seed", seed,
-                              "-ties", 6 if tier == "quick" else 9,
+                              "-ties", 6 if tier == "quick" else 9, "-scale",
                               "-o", pfile, "-what", "pots,settle" if prop == "C02" else "pots"], timeout=3600)
     pres = vlib.validate(work, [pfile], "PotTrace.tla", [prop], nchunks=max(4, vlib.NCPU // 2), heap="3g", independent=True)
     log("[val] package level: %d lines, %d failed clauses, %d drift, %.0fs" % (pres["lines"], len(pres["viol"]), len(pres["drift"]), pres["tlc_s"]))
@@ -106,7 +106,7 @@ def pots_check(prop, tier, seed, work, replay):
         vlib.drive(binary, ["pots-one", "-in", inp, "-o", out])
         r = vlib.validate(work, [out], "PotTrace.tla", [prop], nchunks=1, heap="2g", independent=True)
         again = [x for x in r["viol"] if x["clause"] == v["clause"]]
-        return bool(again), dict(kind="pots", clause=v["clause"], input={k: line[k] for k in ("kind", "c", "f", "s", "order") if k in line},
+        return bool(again), dict(kind="pots", clause=v["clause"], input={k: line[k] for k in ("kind", "c", "f", "s", "order", "scaled") if k in line},
                                  observed={k: line[k] for k in ("pots", "chg") if k in line})
 
     viols = pres["viol"] + eres["viol"]
